@@ -165,23 +165,23 @@ Proof.
 Qed.
 
 Lemma combo_vars_ok c di t fresh :
-  Forall (fun f => f < nf fb) c -> In di (crossing_combos fb c) -> t < T fb -> (GZ < fresh)%Z ->
+  Forall (fun f => isact fb f = true) c -> In di (crossing_combos fb c) -> t < T fb -> (GZ < fresh)%Z ->
   Forall (fun v => 0 < v /\ (zn v <= fresh - 1)%Z) (map (gv t) di).
 Proof.
   intros Hc Hdi Ht Hfr. destruct (combos_spec c di Hdi) as [A B].
   apply Forall_map. apply Forall_forall. intros p Hp. unfold gv. split; [apply (gvar_pos fb HF1 HT)|].
-  assert (Hf : fst p < nf fb).
+  assert (Hf : isact fb (fst p) = true).
   { apply (proj1 (Forall_forall _ _) Hc). rewrite <- A. now apply in_map. }
   pose proof (gvar_le fb HF1 HT t (fst p) (snd p) Ht Hf (proj1 (Forall_forall _ _) B p Hp)). lia.
 Qed.
 
 Lemma encode_combo c di t :
-  Forall (fun f => f < nf fb) c -> In di (crossing_combos fb c) ->
+  Forall (fun f => isact fb f = true) c -> In di (crossing_combos fb c) ->
   encode_combination fb di t = COk (map (gv (t - 1)) di).
 Proof.
   intros Hc Hdi. destruct (combos_spec c di Hdi) as [A B]. unfold encode_combination.
   apply cmapM_ok. intros p Hp.
-  assert (Hf : fst p < nf fb).
+  assert (Hf : isact fb (fst p) = true).
   { apply (proj1 (Forall_forall _ _) Hc). rewrite <- A. now apply in_map. }
   rewrite (f1_encode_any fb HF1 (fst p) (snd p) t Hf (proj1 (Forall_forall _ _) B p Hp)). reflexivity.
 Qed.
@@ -196,7 +196,7 @@ Section One.
 Variable i : nat.
 Variable c : list nat.
 Variable fresh : Z.
-Hypothesis Hc : Forall (fun f => f < nf fb) c.
+Hypothesis Hc : Forall (fun f => isact fb f = true) c.
 Hypothesis Hfr : (GZ < fresh)%Z.
 
 Let combos := trial_combinations_of fb c.
@@ -414,10 +414,10 @@ Qed.
 
 End One.
 
-Lemma crossing_f1_factors i c : crossing_f1 fb i c = true -> Forall (fun f => f < nf fb) c.
+Lemma crossing_f1_factors i c : crossing_f1 fb i c = true -> Forall (fun f => isact fb f = true) c.
 Proof.
   unfold crossing_f1. rewrite !andb_true_iff. intros [[[H _] _] _]. rewrite forallb_forall in H.
-  apply Forall_forall. intros f Hf. apply Nat.ltb_lt. now apply H.
+  apply Forall_forall. intros f Hf. now apply H.
 Qed.
 
 Lemma step_crossings cs : forall i fresh ct,
